@@ -704,6 +704,11 @@ func (dm *DagModifier) Seek(offset int64, whence int) (int64, error) {
 		return 0, ErrUnrecognizedWhence
 	}
 
+	// io.Seeker: seeking to an offset before the start of the file is an error.
+	if int64(newoffset) < 0 {
+		return 0, fmt.Errorf("%w: negative position %d", ErrSeekFail, int64(newoffset))
+	}
+
 	if int64(newoffset) > fisize {
 		if err := dm.expandSparse(int64(newoffset) - fisize); err != nil {
 			return 0, err
